@@ -654,6 +654,14 @@ def run(ctx):
     r12c(ctx)
     r12d(ctx)
     r12e(ctx)
+    # the MPS cost depends on every coefficient it is differentiated by: the weighting structure
+    # of get_cost (theta_in[i] * theta_w[j] * cost_fn, the per-channel coefficients averaged over
+    # the channel axis -- a mean over the precision axis is the constant 1/n) is the rule of C05
+    from . import c05
+    before = len(ctx.obligations)
+    c05.r05b(ctx)
+    for o in ctx.obligations[before:]:
+        o.rule = 'R12g'
     # finiteness of the NE16 cost MPS differentiates (shared with C16 R16a): non-negative,
     # monotone, and exactly 0 -- not 0/0 -- when no channel has the precision
     from . import c16
